@@ -1,6 +1,8 @@
 package gvc
 
 import (
+	"strings"
+	"regexp"
 	"fmt"
 	"go/token"
 	"go/types"
@@ -334,14 +336,90 @@ func (u *Unit) seqEqTerm(a1 *Term, o1 *Term, l1 *Term, a2 *Term, o2 *Term, l2 *T
 		return Forall(v, body)
 	}
 	f1 := mk(a1, a2, o1, func(k *Term) *Term { return Add(k, d) }, true)
+	var full *Term
 	if a2.Base == "" || a1.Base == "" {
 		if a1.Base == "" && a2.Base != "" {
 			f1 = mk(a2, a1, o2, func(k *Term) *Term { return Sub(k, d) }, false)
 		}
-		return And(Eq(l1, l2), f1)
+		full = And(Eq(l1, l2), f1)
+	} else {
+		f2 := mk(a2, a1, o2, func(k *Term) *Term { return Sub(k, d) }, false)
+		full = And(Eq(l1, l2), f1, f2)
 	}
-	f2 := mk(a2, a1, o2, func(k *Term) *Term { return Sub(k, d) }, false)
-	return And(Eq(l1, l2), f1, f2)
+	if u.binder > 0 || full.IsBool {
+		return full
+	}
+	return u.nameSeqEq(full, a1, o1, l1, a2, o2, l2)
+}
+
+// seqFact: a named sequence equality e <=> (l1 == l2 and the contents agree).
+// The quantified direction e => forall is a (deferred) hypothesis; the other
+// direction is quantifier-free through a witness index wk: if e is false and
+// the lengths agree, the two sequences differ at wk.  When some e is assumed
+// false, its witness becomes an index of interest and every named equality is
+// instantiated at it (executor-side instantiation: the solver's E-matching has
+// no ground term to start from in that situation).
+type seqFact struct {
+	e              *Term
+	a1, o1, a2, o2 *Term
+	l              *Term
+	wk             *Term
+	scope          int
+	active         bool
+	activeScope    int
+}
+
+func (u *Unit) nameSeqEq(full, a1, o1, l1, a2, o2, l2 *Term) *Term {
+	e := u.newBool("seq")
+	wk := u.newInt("wk")
+	u.S.Assert(Implies(e, full))
+	diff := Not(Eq(Select(a1, Add(o1, wk)), Select(a2, Add(o2, wk))))
+	u.S.Assert(Or(e, Not(Eq(l1, l2)), And(Le(IntLit(0), wk), Lt(wk, l1), diff)))
+	f := &seqFact{e: e, a1: a1, o1: o1, a2: a2, o2: o2, l: l1, wk: wk, scope: u.S.ScopeID()}
+	live := u.seqFacts[:0]
+	for _, g := range u.seqFacts {
+		if u.S.Alive(g.scope) {
+			live = append(live, g)
+		}
+	}
+	u.seqFacts = append(live, f)
+	if u.seqByName == nil {
+		u.seqByName = map[string]*seqFact{}
+	}
+	u.seqByName[e.S] = f
+	for _, g := range u.seqFacts {
+		if g != f && g.active && u.S.Alive(g.activeScope) {
+			u.instSeq(f, g.wk)
+		}
+	}
+	return e
+}
+
+func (u *Unit) instSeq(f *seqFact, idx *Term) {
+	u.S.Assert(Implies(And(f.e, Le(IntLit(0), idx), Lt(idx, f.l)), Eq(Select(f.a1, Add(f.o1, idx)), Select(f.a2, Add(f.o2, idx)))))
+	u.Instances++
+}
+
+var notSeqRe = regexp.MustCompile(`\(not (seq![0-9]+)\)`)
+
+// activateWitnesses: t is being assumed; every named sequence equality that
+// occurs negated in it contributes its witness index.
+func (u *Unit) activateWitnesses(t *Term) {
+	if len(u.seqByName) == 0 || !strings.Contains(t.S, "(not seq!") {
+		return
+	}
+	for _, m := range notSeqRe.FindAllStringSubmatch(t.S, -1) {
+		f := u.seqByName[m[1]]
+		if f == nil || !u.S.Alive(f.scope) || (f.active && u.S.Alive(f.activeScope)) {
+			continue
+		}
+		f.active, f.activeScope = true, u.S.ScopeID()
+		for _, g := range u.seqFacts {
+			if u.S.Alive(g.scope) {
+				u.instSeq(g, f.wk)
+			}
+		}
+	}
 }
 
 func (u *Unit) equal(st *State, x, y Val, t types.Type) *Term {
